@@ -26,11 +26,26 @@ type c08Enc struct {
 	// Segs: nil = a single Write; [] with NoWrite = no Write at all
 	Segs    []int `json:"segs"`
 	NoWrite bool  `json:"noWrite"`
+	// Twin: a second armor writer and a second armor reader are in use around this one
+	Twin bool `json:"twin,omitempty"`
 }
 
 func c08CheckEncode(c c08Enc, st *stats.Run) error {
 	data := hx.PRG(c.Seed, c.Len)
 	var out hx.RecWriter
+	var out2 bytes.Buffer
+	other := hx.PRG(c.Seed+9, 130)
+	var w2 io.WriteCloser
+	var r2 io.Reader
+	var got2 []byte
+	if c.Twin {
+		w2 = armor.NewWriter(&out2)
+		w2.Write(other[:37])
+		r2 = armor.NewReader(strings.NewReader(refage.Armor(other)))
+		b := make([]byte, 50)
+		n, _ := io.ReadFull(r2, b)
+		got2 = b[:n]
+	}
 	w := armor.NewWriter(&out)
 	if !c.NoWrite {
 		if n, err := writeSegs(w, data, c.Segs); err != nil {
@@ -43,8 +58,18 @@ func c08CheckEncode(c c08Enc, st *stats.Run) error {
 		return pbt.Failf("C08/close-error", "armor Close failed: %v", err)
 	}
 	text := append([]byte{}, out.Buf.Bytes()...)
+	if c.Twin {
+		w2.Write(other[37:])
+		if err := w2.Close(); err != nil || out2.String() != refage.Armor(other) {
+			return pbt.Failf("C08/encode-not-canonical", "a second armor writer used around this one produced %q (%v)", trunc(out2.Bytes()), err)
+		}
+		rest, err := io.ReadAll(r2)
+		if err != nil || !bytes.Equal(append(got2, rest...), other) {
+			return pbt.Failf("C08/encode-roundtrip", "a second armor reader used around this writer returned %d bytes (%v), want %d", len(got2)+len(rest), err, len(other))
+		}
+	}
 	nwrites := len(c.Segs) + 1
-	st.Case((len(data) > 0 && len(c.Segs) >= 1) || c.NoWrite, stats.HashJSON(c), "enc", fmt.Sprintf("enc:noWrite=%v", c.NoWrite), fmt.Sprintf("enc:len%%48=%d", classMod48(len(data))), fmt.Sprintf("enc:writes=%d", min(nwrites, 4)))
+	st.Case((len(data) > 0 && len(c.Segs) >= 1) || c.NoWrite, stats.HashJSON(c), "enc", fmt.Sprintf("enc:noWrite=%v", c.NoWrite), fmt.Sprintf("enc:len%%48=%d", classMod48(len(data))), fmt.Sprintf("enc:writes=%d", min(nwrites, 4)), fmt.Sprintf("enc:twin=%v", c.Twin))
 	st.Sample(fmt.Sprintf("encode/noWrite=%v", c.NoWrite), map[string]any{"case": c, "output": trunc(text)})
 	// a second Close returns an error and writes nothing more
 	before := out.Buf.Len()
@@ -357,6 +382,7 @@ func TestC08(t *testing.T) {
 		default:
 			c.Segs = rapid.SliceOfN(rapid.SampledFrom([]int{0, 1, 2, 3, 47, 48, 49, 64, 100, 1000}), 1, 8).Draw(t, "segs")
 		}
+		c.Twin = rapid.IntRange(0, 2).Draw(t, "twin") == 0
 		return c
 	}, enc)
 
